@@ -101,3 +101,29 @@ def knownDirectives (s : SchemaD) (d : Doc) : Prop :=
     ∃ sd, findDirective s dr.name = some sd ∧ ∀ a rest, p.2 = a :: rest → a.location ∈ sd.locations
 
 end PyGql.Validate.Spec
+
+namespace PyGql.Validate.Spec
+open PyGql PyGql.Validate
+
+/-- every node below the document with its output-side static context (`View`) -/
+def viewNodes (s : SchemaD) (d : Doc) : List (Node × View) := gnDoc (View.enter s) {} d
+
+/-- the type condition of (the last definition of) each fragment whose type condition exists -/
+def fragTypes (s : SchemaD) (d : Doc) : AL String :=
+  ((fragDefs d).filter fun f => (typeFromAst s (.named f.2.1)).isSome).foldl (fun m f => AL.set m f.1 f.2.1) []
+
+/-- the type a named fragment is spread into: the parent type of the enclosing selection set
+    (before fix 0368e7b: the enclosing field's type, and only if it is not wrapped) -/
+def spreadParent (fx : Fixes) (v : View) : Option String :=
+  if fx.v10 then v.parent else match v.type with | some (.named p) => some p | _ => none
+
+/-- **5.5.2.3 Fragment spread is possible**: the possible types of the fragment and of the place it is spread
+    into intersect (named spreads and inline fragments) -/
+def possibleFragmentSpreads (s : SchemaD) (fx : Fixes) (d : Doc) : Prop :=
+  ∀ q ∈ viewNodes s d,
+    (∀ name dirs, q.1 = Node.spread name dirs → ∀ ft p, AL.get? (fragTypes s d) name = some ft →
+      spreadParent fx q.2 = some p → isComposite s ft = true → isComposite s p = true → typesOverlap s ft p = true) ∧
+    (∀ on dirs, q.1 = Node.inline on dirs → ∀ t p, q.2.type = some (.named t) → q.2.parent = some p →
+      isComposite s t = true → isComposite s p = true → typesOverlap s t p = true)
+
+end PyGql.Validate.Spec
